@@ -123,6 +123,7 @@ type Ctx struct {
 	UFs    map[string]*UFDecl
 	UFList []*UFDecl
 	ivals  map[int]ival // intarith.go: memoised syntactic intervals of Int terms
+	NoLift bool // per-context switch: see liftPair
 }
 
 type UFDecl struct {
@@ -1010,7 +1011,7 @@ func (c *Ctx) lift(t *Term, depth int) (*Term, bool) {
 }
 
 func (c *Ctx) liftPair(a, b *Term) (*Term, *Term, bool) {
-	if NoLift || a.Sort.K != KInt {
+	if NoLift || c.NoLift || a.Sort.K != KInt {
 		return nil, nil, false
 	}
 	// only worthwhile when at least one side is not a constant and both lift
